@@ -191,6 +191,10 @@ fn run(args: &[String]) {
     let runs: u64 = argument(args, "--runs").and_then(|s| s.parse().ok()).unwrap_or(100);
     let out = argument(args, "--out").expect("--out").to_string();
     let log_events = argument(args, "--events").is_some();
+    // C09: the first `enumerate3 + enumerate4` run indices are the enumerated graph family
+    let enumerate3: u64 = argument(args, "--enumerate3").and_then(|s| s.parse().ok()).unwrap_or(0);
+    let enumerate4: u64 = argument(args, "--enumerate4").and_then(|s| s.parse().ok()).unwrap_or(0);
+    let mut enumerated_runs = 0u64;
     let thorough = tier == "thorough";
     let focus_tag = if focus == "C09" { 9 } else { 15 };
 
@@ -217,7 +221,16 @@ fn run(args: &[String]) {
     while index < runs {
         let seed_i = mix(seed, ENGINE * 100 + focus_tag, index);
         let faults = index % 2 == 1;
-        let generated = generate::history(seed_i, &focus, faults, thorough);
+        let generated = if index < enumerate3 {
+            enumerated_runs += 1;
+            // all 512 graphs when enumerate3 == 512, an even stride through them otherwise
+            generate::enumerated(3, index * 512 / enumerate3.max(1), seed_i)
+        } else if index < enumerate3 + enumerate4 {
+            enumerated_runs += 1;
+            generate::enumerated(4, (index - enumerate3) * 65536 / enumerate4.max(1), seed_i)
+        } else {
+            generate::history(seed_i, &focus, faults, thorough)
+        };
         let key = mix(seed_i, 77, 0);
         let run_dir = zysim_common::run_directory(&format!("session{focus_tag}"), seed, index);
         let mut record = match run_child(&run_dir, key, &generated.config, &generated.ops, &focus) {
@@ -319,7 +332,7 @@ fn run(args: &[String]) {
     }
     let record = json!({
         "shard": shard, "shards": shards, "tier": tier, "seed": seed.to_string(), "focus": focus,
-        "runs": totals_runs, "ops_executed": ops_executed, "ops_skipped_by_precondition": ops_skipped,
+        "runs": totals_runs, "enumerated_graph_runs": enumerated_runs, "ops_executed": ops_executed, "ops_skipped_by_precondition": ops_skipped,
         "queries": queries, "fresh_sessions": fresh_sessions, "graph_judgements": graph_judgements,
         "inline_judgements": inline_judgements,
         "by_kind": by_kind, "faults_fired": faults_fired, "probes": probes, "answer_kinds": answer_kinds,
